@@ -22,6 +22,9 @@ pub struct Case {
     pub kind: String,
     pub permanent: bool,
     pub policy: Policy,
+    /// reads through file handles are storage operations in this case (they can be the target)
+    #[serde(default)]
+    pub reads: bool,
 }
 
 pub fn configs() -> Vec<WlConfig> {
@@ -34,8 +37,9 @@ pub fn configs() -> Vec<WlConfig> {
 }
 
 /// runs the workload without faults and returns the storage log
-pub fn fault_free_log(workload: usize, cfg: &WlConfig) -> Vec<LogEntry> {
+pub fn fault_free_log(workload: usize, cfg: &WlConfig, reads: bool) -> Vec<LogEntry> {
     let sim = SimDirectory::new();
+    sim.set_read_points(reads);
     let mut d = Driver::new(sim.clone(), cfg);
     d.create_index().unwrap();
     d.open_writer().unwrap();
@@ -87,6 +91,7 @@ fn directory_exact(sim: &SimDirectory) -> Result<(), String> {
 
 pub fn run_case(c: &Case, st: &mut Stats) -> Option<(String, String)> {
     let sim = SimDirectory::new();
+    sim.set_read_points(c.reads);
     let fired = Arc::new(AtomicBool::new(false));
     let (tid, tix, permanent) = (c.tid.clone(), c.thread_index, c.permanent);
     let f2 = fired.clone();
@@ -287,12 +292,29 @@ fn work_list(thorough: bool) -> Vec<Case> {
     let mut out = vec![];
     for &wl in &wls {
         for cfg in &cfgs {
-            let log = fault_free_log(wl, cfg);
+            let log = fault_free_log(wl, cfg, false);
             for (tid, tix, kind) in targets(&log) {
                 for permanent in [false, true] {
                     for policy in [Policy::Rollback, Policy::NewWriter, Policy::GoOn] {
-                        out.push(Case { workload: wl, cfg: cfg.clone(), tid: tid.clone(), thread_index: tix, kind: kind.clone(), permanent, policy });
+                        out.push(Case { workload: wl, cfg: cfg.clone(), tid: tid.clone(), thread_index: tix, kind: kind.clone(), permanent, policy, reads: false });
                     }
+                }
+            }
+        }
+    }
+    // reads through file handles as fault targets: the merge + collection workload (quick: reads of the merge
+    // thread, failing once; thorough: reads of every thread of every workload, once and permanently)
+    let read_wls: Vec<usize> = if thorough { (0..workloads().len()).collect() } else { vec![2] };
+    for &wl in &read_wls {
+        let cfg = configs()[0].clone();
+        let log = fault_free_log(wl, &cfg, true);
+        for (tid, tix, kind) in targets(&log) {
+            if kind != "read" || (!thorough && !tid.starts_with('M')) {
+                continue;
+            }
+            for permanent in if thorough { vec![false, true] } else { vec![false] } {
+                for policy in [Policy::Rollback, Policy::NewWriter] {
+                    out.push(Case { workload: wl, cfg: cfg.clone(), tid: tid.clone(), thread_index: tix, kind: kind.clone(), permanent, policy, reads: true });
                 }
             }
         }
@@ -378,7 +400,7 @@ pub fn run(ctx: &Ctx) -> Report {
     st.merge(p.st);
     rep.set("exhaustive", o.complete && o.completed as usize == work.len() && pcomplete);
     rep.set("cases", work.len() as u64);
-    rep.set("rule", "for every workload (quick: add+commit, add+delete+commit; thorough: + merge+GC, reload, rollback+restart) x writer configuration (1-2 workers, dedicated compressor thread on/off) x every storage operation of the fault-free log, identified by (logical thread, index among that thread's operations) - create, write, flush, terminate, atomic write, atomic read, open, exists, delete, directory sync, lock - failing once or permanently from there on x three continuation policies after the first reported error (rollback, new writer, keep using the writer): no panic / abort / hang; every commit that returns Ok is complete, readable and checksum-clean in a fresh open; after any reported error the storage holds the last Ok commit or a failed commit's complete state; finally a new writer adds, commits and collects and the directory holds exactly the committed files; a reload that returns Ok hands out a searcher that shows a whole commit and can be queried. Two-deviation family: a merge of two committed segments is preempted at 2 (thorough 5) positions of its merge thread by {delete + commit; two delete commits; deleting a whole source + commit}, and afterwards every storage operation of the updater that reconciles and publishes the merge fails once: the published documents stay those of the last commit. Non-trivial: cases whose fault fired; distinct by construction");
+    rep.set("rule", "for every workload (quick: add+commit, add+delete+commit; thorough: + merge+GC, reload, rollback+restart) x writer configuration (1-2 workers, dedicated compressor thread on/off) x every storage operation of the fault-free log, identified by (logical thread, index among that thread's operations) - create, write, flush, terminate, atomic write, atomic read, open, exists, delete, directory sync, lock - failing once or permanently from there on (and, with reads through file handles made storage operations, every read of the merge thread of the merge + collection workload; thorough: every read of every thread) x three continuation policies after the first reported error (rollback, new writer, keep using the writer): no panic / abort / hang; every commit that returns Ok is complete, readable and checksum-clean in a fresh open; after any reported error the storage holds the last Ok commit or a failed commit's complete state; finally a new writer adds, commits and collects and the directory holds exactly the committed files; a reload that returns Ok hands out a searcher that shows a whole commit and can be queried. Two-deviation family: a merge of two committed segments is preempted at 2 (thorough 5) positions of its merge thread by {delete + commit; two delete commits; deleting a whole source + commit}, and afterwards every storage operation of the updater that reconciles and publishes the merge fails once: the published documents stay those of the last commit. Non-trivial: cases whose fault fired; distinct by construction");
     let fired = st.counters.get("faults_fired").copied().unwrap_or(0);
     for k in ["faults_fired", "api_errors", "commits_ok", "kind.create", "kind.write", "kind.terminate", "kind.atomic_write", "kind.sync_dir", "kind.delete", "kind.open_read"] {
         if st.counters.get(k).copied().unwrap_or(0) == 0 {
